@@ -4,6 +4,8 @@
 # Violation replay files produced meanwhile are moved to <outdir>; the evidence directory is restored.
 set -u
 P=$1; OUT=$2; TIER=$3; shift 3
+# one seeded trial at a time: the patch lives in /repo's working tree
+exec 9>/tmp/verif-repo-tree.lock; flock 9
 mkdir -p "$OUT"
 cd /repo || exit 2
 if ! git diff --quiet; then echo "repo working tree is dirty"; exit 2; fi
@@ -12,7 +14,7 @@ cleanup() {
   git -C /repo checkout -- .
   git -C /verif checkout -- evidence 2>/dev/null
   # rebuild the harness against the reverted tree, so that a later direct use of the binary is not the patched build
-  (cd /verif/harness && CARGO_NET_OFFLINE=true cargo build >/dev/null 2>&1)
+  [ -n "${NO_REBUILD:-}" ] || (cd /verif/harness && CARGO_NET_OFFLINE=true cargo build >/dev/null 2>&1)
   echo "[reverted, harness rebuilt]"
 }
 trap cleanup EXIT INT TERM
